@@ -145,7 +145,10 @@ Definition monitor (which : N) (cfg : list N) (tr : list (list N * obs)) : bool 
   | k :: b :: _ =>
       match which with
       | 12%N => oneshot_ok (N.to_nat k) (negb (N.eqb b 0)) (dec_trace tr)
-      | 11%N => handles_ok tr
+      (* C11 = handle lifecycle and the close clauses of the protocol monitor (a closing call
+         leaves no receive future pending and unwoken; nothing is delivered after a close
+         without a value) *)
+      | 11%N => handles_ok tr && oneshot_ok (N.to_nat k) (negb (N.eqb b 0)) (dec_trace tr)
       | _ => true
       end
   | _ => true
